@@ -14,6 +14,17 @@ abbrev R := Sodg.R Label Hex
 abbrev Op := Sodg.Op Label Hex
 abbrev Out := Sodg.Out Label Hex
 
+/-- the reference keeps its per-vertex tables as functions updated by `upd`; a long history makes every lookup
+    walk a long chain of closures. `compactR` rebuilds the four tables from arrays (extensionally the same on ids
+    below `cap`, and equal to the initial defaults above it, where nothing is ever written in a valid history).
+    Used by the generators and the monitors only; the theorems are about `R` as it is. -/
+def compactR (cap : Nat) (r : R) : R :=
+  let g : Array (Option Nat) := Array.ofFn (n := cap) (fun i => r.grp i.val)
+  let u : Array Bool := Array.ofFn (n := cap) (fun i => r.unr i.val)
+  let e : Array (List (Label × Nat)) := Array.ofFn (n := cap) (fun i => r.edg i.val)
+  let d : Array (Option Hex) := Array.ofFn (n := cap) (fun i => r.dat i.val)
+  { r with grp := fun w => g.getD w none, unr := fun w => u.getD w false, edg := fun w => e.getD w [], dat := fun w => d.getD w none }
+
 /-! ### text helpers -/
 
 def words (s : String) : List String := (s.trimAscii.toString.splitOn " ").filter (· ≠ "")
